@@ -62,7 +62,7 @@ class C10(Check):
     exhaustive = True
 
     def budget(self, tier):
-        return (40, 8) if tier == 'quick' else (600, 16)
+        return (80, 8) if tier == 'quick' else (600, 16)
 
     def fixed_cases(self, tier):
         cases = [dict(kind='index', family=fam) for fam in FAMILIES]
@@ -73,7 +73,9 @@ class C10(Check):
     def strategy(self, tier):
         coeff = st.one_of(st.just(0.0), f(-1.0, 1.0), f(-100.0, 100.0), f(-1e-3, 1e-3))
         fit = st.fixed_dictionaries(dict(kind=st.just('fit'), family=st.sampled_from(FAMILIES),
-                                         c1=st.lists(coeff, min_size=1, max_size=37),
+                                         c1=st.one_of(st.lists(coeff, min_size=1, max_size=37),
+                                                      st.lists(coeff, min_size=1, max_size=37),
+                                                      st.lists(coeff, min_size=37, max_size=56)),
                                          c2=st.lists(coeff, min_size=1, max_size=37),
                                          a=f(-3.0, 3.0), b=f(-3.0, 3.0),
                                          pts=st.sampled_from(['hexapolar', 'grid', 'spiral']), jit=f(0.0, 1.0)))
@@ -173,6 +175,28 @@ class C10(Check):
         z3 = np.asarray(cls(list(a * c1 + b * c2)).poly(r, phi), dtype=float)
         sc = max(1e-30, np.max(np.abs(c1)), np.max(np.abs(c2))) * N
         out.close('poly_linear_in_coefficients', z3, a * z1 + b * z2, atol=1e-10 * sc * (abs(a) + abs(b) + 1))
+        # history on one object: the caller's coordinate buffers are reused and changed in place between calls, and
+        # the coefficients are replaced; each evaluation depends only on its arguments and the current coefficients
+        zobj = cls(list(c1))
+        rb, pb = r.copy(), phi.copy()
+        v1 = np.asarray(zobj.poly(rb, pb), dtype=float)
+        out.close('evaluation_depends_only_on_arguments', v1, z1, atol=1e-13 * sc, step='first')
+        rb *= 0.5
+        pb += 0.3
+        v2 = np.asarray(zobj.poly(rb, pb), dtype=float)
+        out.close('evaluation_depends_only_on_arguments', v2, np.asarray(cls(list(c1)).poly(rb.copy(), pb.copy()), dtype=float),
+                  atol=1e-13 * sc, step='buffers changed in place')
+        zobj.coeffs = list(c2)
+        v3 = np.asarray(zobj.poly(r, phi), dtype=float)
+        out.close('evaluation_depends_only_on_arguments', v3, z2, atol=1e-13 * sc, step='coefficients replaced')
+        if N >= 2:
+            # coefficients replaced by a longer vector than the object was constructed with (what ZernikeFit does)
+            zshort = cls(list(c1[:max(1, N // 2)]))
+            zshort.coeffs = list(c1)
+            v4 = np.asarray(zshort.poly(r, phi), dtype=float)
+            out.close('evaluation_depends_only_on_arguments', v4, z1, atol=1e-13 * sc, step='longer coefficient vector')
+        if N > 36:
+            out.cls('more_than_36_terms')
         B = np.array([RZ.basis(fam, n, m, r, phi) for n, m in idx]).T            # (pts, N)
         Bs = np.array([RZ.basis(fam, n, m, r, phi, -1.0) for n, m in idx]).T
         # per-term agreement with the library's single-term evaluation, up to sign
